@@ -27,6 +27,10 @@ CC = {
     'clang-O2-uchar': ('clang', ['-O2', '-funsigned-char']),
     'gcc-O1-nobuiltin-san': ('gcc', ['-O1', '-g', '-D__has_builtin(x)=0', '-fsanitize=undefined,address,float-cast-overflow', '-fno-sanitize-recover=all']),
     'clang-O1-nobuiltin-san': ('clang', ['-O1', '-g', '-D__has_builtin(x)=0', '-fsanitize=undefined,address', '-fno-sanitize-recover=all']),
+    # targets whose ISA defines the bit-count instructions for zero (x86 LZCNT/BMI, as -march=x86-64-v3 or -march=native select):
+    # headers sometimes take shortcuts for them; only scheduled when this CPU can run such code (cpu_has_lzcnt_bmi)
+    'gcc-O2-lzcnt': ('gcc', ['-O2', '-mlzcnt', '-mbmi']),
+    'clang-O2-lzcnt': ('clang', ['-O2', '-mlzcnt', '-mbmi']),
     'gcc-O1-nobuiltin': ('gcc', ['-O1', '-D__has_builtin(x)=0']),
     'clang-O1-nobuiltin': ('clang', ['-O1', '-D__has_builtin(x)=0']),
     'gcc-O1-be': ('gcc', ['-O1', '-DWASM_ENDIAN=1']),
@@ -43,6 +47,18 @@ CC = {
     'gcc-O2-san': ('gcc', ['-O2', '-g', '-fsanitize=undefined,address,float-cast-overflow', '-fno-sanitize-recover=all']),
     'clang-O0-san': ('clang', ['-O0', '-g', '-fsanitize=undefined,address', '-fno-sanitize-recover=all']),
 }
+
+
+def cpu_has_lzcnt_bmi():
+    try:
+        flags = set()
+        for ln in open('/proc/cpuinfo'):
+            if ln.startswith('flags'):
+                flags = set(ln.split(':', 1)[1].split())
+                break
+        return 'abm' in flags and 'bmi1' in flags
+    except OSError:
+        return False
 
 
 def hx(x):
